@@ -219,7 +219,7 @@ def _run_one(case, ctx):
     m = recipes.fresh(case["recipe"])
     if adapters.is_leaf(m):
         raise monitor.OutOfScope()
-    common.domain(m)
+    common.domain(m, recipe=case["recipe"])
     ctx.call("to_ge_polyhedron(True)", m.to_ge_polyhedron, True)
     ctx.call("to_ge_polyhedron(False)", m.to_ge_polyhedron, active=False)
     ctx.call("to_ge_polyhedron()", m.to_ge_polyhedron)          # the documented default is the un-asserted system
